@@ -936,6 +936,10 @@ void BW_MidiSequencer::buildTimeLine(const std::vector<MidiEvent> &tempos,
                     t = postDelay * currentTempo;
                     posPrev->timeDelay += t.value();
 
+                    // The delay of a row before a lone End-of-Track has been dropped (end silence skipping)
+                    if(posPrev->delay == 0)
+                        posPrev->timeDelay = 0.0;
+
                     // Store Common time delay
                     posPrev->time = time;
                     time += posPrev->timeDelay;
